@@ -30,7 +30,7 @@ GAGGS = ["sum", "count", "size", "mean", "var", "std"]
 @st.composite
 def case_strategy(draw, tier="quick"):
     timed = draw(st.integers(0, 2)) == 0
-    t = draw(dc.table(max_rows=14, time_index=timed, min_rows=2))
+    t = draw(dc.table(max_rows=14, time_index=timed, min_rows=2, nan_keys=True))
     cuts = draw(dc.cuts_for(len(t["rows"])))
     group = draw(st.sampled_from([None, None, "col", "series"]))
     # (a row-count window may also run over a time-indexed table: duplicate labels in a batch)
